@@ -148,6 +148,41 @@ func (p *producer) momentum() *nom.DetailedMomentum {
 	return p.bridge.GetBlock(f.Hash)
 }
 
+// momentumSkipping produces the next momentum `gap` slots after the frontier's (1 = the next slot, as momentum() does; 2 leaves
+// one slot empty), built as pillar/worker_momentum.go does and signed by the pillar elected for that slot.
+func (p *producer) momentumSkipping(gap int64) *nom.DetailedMomentum {
+	ch := p.z.Chain()
+	prev := p.frontier()
+	tsec := int64(prev.TimestampUnix) + 10*gap
+	exp, err := p.z.Consensus().GetMomentumProducer(time.Unix(tsec, 0))
+	if err != nil || exp == nil {
+		panic(fmt.Sprintf("momentumSkipping: no producer for %d: %v", tsec, err))
+	}
+	var key vm.SignFunc
+	for _, kp := range g.PillarKeys {
+		if kp.Address == *exp {
+			key = kp.Signer
+		}
+	}
+	if key == nil {
+		panic("momentumSkipping: elected pillar has no key")
+	}
+	ins := ch.AcquireInsert("zvh producer skip")
+	blocks := ch.GetNewMomentumContent()
+	m := &nom.Momentum{ChainIdentifier: ch.ChainIdentifier(), PreviousHash: prev.Hash, Height: prev.Height + 1,
+		TimestampUnix: uint64(tsec), Content: nom.NewMomentumContent(blocks), Version: 1}
+	m.EnsureCache()
+	tx, err := p.sup.GenerateMomentum(&nom.DetailedMomentum{Momentum: m, AccountBlocks: blocks}, key)
+	if err == nil {
+		err = ch.AddMomentumTransaction(ins, tx)
+	}
+	ins.Unlock()
+	if err != nil {
+		panic(fmt.Sprintf("momentumSkipping: %v", err))
+	}
+	return p.bridge.GetBlock(tx.Momentum.Hash)
+}
+
 func (p *producer) rollbackTo(id types.HashHeight) error {
 	ins := p.z.Chain().AcquireInsert("zvh rollback")
 	defer ins.Unlock()
